@@ -9,6 +9,8 @@ CONSTANTS
   DEV_PickleNoRebuild = TRUE
   DEV_AddRebuildsFirst = FALSE
   DEV_DeferredRemoveKeepsPolygon = FALSE
+  DEV_ForkSharesLanelets = FALSE
+  ForkAll = FALSE
   DEV_DiscHalfRadius = FALSE
 INVARIANT TypeOK
 INVARIANT IndexMirrors
